@@ -811,16 +811,9 @@ impl Sim {
                 return;
             }
         };
-        let mut all_events = vec![];
-        if let Some(eci) = &expanded.extended_commit_info_with_proof {
-            let mut state_tx: StateDelta<Arc<StateDelta<cnidarium::Snapshot>>> = StateDelta::new(app.state.clone());
-            if let Err(e) = vote_extension::apply_prices_from_vote_extensions(&mut state_tx, eci.extended_commit_info(), fb.time.into(), fb.height.value()).await {
-                self.log.ev(json!({"kind": "lab_error", "hist": hist, "height": height, "stage": "apply_prices", "err": short(&format!("{e:#}"))}));
-                self.ok = false;
-                return;
-            }
-            all_events.extend(app.apply(state_tx));
-        }
+        // prices of the extended commit are applied after the block's transactions and end-of-block handling, as
+        // finalize_block does on every call path
+        let eci_for_prices = expanded.extended_commit_info_with_proof.clone();
         let block_data = BlockData {
             misbehavior: fb.misbehavior.clone(),
             height: fb.height,
@@ -950,6 +943,15 @@ impl Sim {
             self.log.ev(json!({"kind": "lab_error", "hist": hist, "height": height, "stage": "post_execute", "err": short(&format!("{e:#}"))}));
             self.ok = false;
             return;
+        }
+        if let Some(eci) = &eci_for_prices {
+            let mut state_tx: StateDelta<Arc<StateDelta<cnidarium::Snapshot>>> = StateDelta::new(app.state.clone());
+            if let Err(e) = vote_extension::apply_prices_from_vote_extensions(&mut state_tx, eci.extended_commit_info(), fb.time.into(), fb.height.value()).await {
+                self.log.ev(json!({"kind": "lab_error", "hist": hist, "height": height, "stage": "apply_prices", "err": short(&format!("{e:#}"))}));
+                self.ok = false;
+                return;
+            }
+            let _ = app.apply(state_tx);
         }
         let end = dump_state(app.state()).await;
         let PostTransactionExecutionResult { tx_results, validator_updates, .. } =
